@@ -69,6 +69,30 @@ fn main() {
             }
         }
     }
+    // arguments the template does not declare (a caller may send more than is asked for) have no influence on the fee:
+    // whatever they are called, the body fee is the reported fee is the linear fee of the returned payload
+    for (name, value) in [("fees", ArgValue::Int(170_000)), ("fee", ArgValue::Int(1)), ("extra_fees", ArgValue::Int(5)), ("quantity2", ArgValue::Int(9)), ("source", ArgValue::Int(3))] {
+        for (a, b, extra) in [(44u64, 155381u64, None), (1, 2, Some(0))] {
+            cases += 1;
+            let tx = lower(TRANSFER, "transfer");
+            let args: BTreeMap<String, ArgValue> = BTreeMap::from([
+                ("quantity".to_string(), ArgValue::Int(quantity)),
+                ("sender".to_string(), ArgValue::Address(addr_bytes(SENDER))),
+                ("receiver".to_string(), ArgValue::Address(addr_bytes(RECEIVER))),
+                (name.to_string(), value.clone()),
+            ]);
+            let store = FixedStore(vec![lovelace_utxo(SENDER, 50_000_000_000, 0)]);
+            let mut c = compiler(a, b, extra);
+            vf_pipeline::begin_case(format!("transfer with an undeclared argument {name}"));
+            if let Ok(x) = pollster::block_on(tx3_resolver::resolve_tx(AnyTir::V1Beta0(tx), &args, &mut c, &store, 10)) {
+                let bf = body_fee(&x.payload);
+                let lin = x.payload.len() as u64 * a + b + extra.unwrap_or(200_000);
+                if bf != x.fee || x.fee != lin {
+                    println!("VERIF-WITNESS obligation=c05_resolver/resolve_tx#loop-ensures-at-exit fn=resolve_tx input=transfer(quantity={quantity}) with the undeclared argument {name}={value:?} coefficient={a} constant={b} extra={extra:?} class=undeclared-argument observed=body.fee={bf},reported.fee={},len={} required=body.fee==reported.fee=={lin}", x.fee, x.payload.len());
+                }
+            }
+        }
+    }
     println!("VERIF-CASES fn=resolve_tx n={cases}");
     println!("VERIF-WITNESSES {witnesses}");
 }
